@@ -50,7 +50,13 @@ class Recorder(importlib.abc.MetaPathFinder):
             try:
                 _orig(module)
             except BaseException as exc:
-                if not _failed[0]:
+                # logged once, in the module where the exception arises (it may pass through the bodies of
+                # the modules that import this one, and a handler of one of them may catch it)
+                if not getattr(exc, "_lenaverif_logged", False):
+                    try:
+                        exc._lenaverif_logged = True
+                    except Exception:
+                        pass
                     _failed[0] = True
                     events.append({"ev": "fail", "kind": type(exc).__name__, "msg": str(exc)[:300], "m": _name})
                 raise
